@@ -1022,7 +1022,8 @@ Inductive expr : Type :=
 | ECall (f : N) (args : list expr) (kw : list (N * expr))
 | ETupIdx (e : expr) (n : N)            (* e.n *)
 | EIndex (e : expr) (i : expr)          (* e[i] *)
-| EObj (o : N).                         (* the set of all objects of a type *)
+| EObj (o : N)                          (* the set of all objects of a type *)
+| EPtr (e : expr) (p : N).              (* e.p : link / property of an object-typed expression *)
 
 (* expr.flatten_set *)
 Fixpoint flat1 (e : expr) : list expr :=
@@ -1176,6 +1177,20 @@ Variable castv : ty -> ty -> value -> list value.
 Variable idxp : ty -> value -> value -> list value.
 (* database instance: the objects of (exactly) a given object type and of its descendants *)
 Variable db : N -> list value.
+(* the pointers (links and properties, inherited ones included) of the object types of the user
+   schema: (object type, pointer name) -> target type; and their values in the database
+   instance: object id -> pointer name -> values *)
+Variable ptrs : list (N * N * ty).
+Variable dbp : N -> N -> list value.
+
+Fixpoint find_ptr (l : list (N * N * ty)) (o p : N) : option ty :=
+  match l with
+  | [] => None
+  | (o', p', t) :: l' => if N.eqb o o' && N.eqb p p' then Some t else find_ptr l' o p
+  end.
+
+Definition ptr_values (p : N) (v : value) : list value :=
+  match v with VObj _ id => dbp id p | _ => [] end.
 
 (* func.finalize_args: arguments whose type is not compatible with the (resolved) parameter
    type are cast to it (compile_cast with span=None).  Returns the "clean" flag (every argument
@@ -1235,8 +1250,8 @@ Definition apply_bcall (bc : bcall) (args : list argv) (kws : list (N * argv))
 (* ---- func.compile_operator ---- *)
 Definition is_union (t : ty) := match t with TUnion _ => true | _ => false end.
 
-Definition compile_operator (nm : N) (argvs : list argv) : res (ty * bool * list value) :=
-  let args := map av_ty argvs in
+(* overload resolution of an operator application (types only): the unique matching call *)
+Definition resolve_operator (nm : N) (args : list ty) : res bcall :=
   let opers0 := callables_named nm true in
   if existsb is_union args then Err EUnsupported else     (* union-typed operands: not modelled *)
   match opers0 with
@@ -1277,42 +1292,49 @@ Definition compile_operator (nm : N) (argvs : list argv) : res (ty * bool * list
     let matched := filter (fun c => negb (cl_abstract (bc_f c))) matched0 in
     match matched with
     | [] => Err ENoMatch
-    | [c] =>
-        r <- apply_bcall c argvs [] ;;
-        let '(rtype, clean, vs) := r in
-        if is_set_like_op (cl_name (bc_f c)) && is_object rtype then
-          (* "instead of common parent type, we return a union type" *)
-          (* an operand that is not of an object type can only be an (anytype) empty set *)
-          let ov := fun a : argv => if is_object (av_ty a) then av_vs a else [] in
-          match (if N.eqb nm (sg_if sg) then
-                   match argvs with
-                   | [l; c; r] => Some (l, r, [ov l; av_vs c; ov r]) | _ => None end
-                 else match argvs with [l; r] => Some (l, r, [ov l; ov r]) | _ => None end) with
-          | Some (l, r, vals) =>
-              Ok (union_type (av_ty l) (av_ty r), clean,
-                  match sem_setlike nm vals with Some v => v | None => [] end)
-          | None => Err EInternal
-          end
-        else Ok (rtype, clean, vs)
+    | [c] => Ok c
     | _ => Err EAmbiguous
     end
   end.
 
+Definition compile_operator (nm : N) (argvs : list argv) : res (ty * bool * list value) :=
+  c <- resolve_operator nm (map av_ty argvs) ;;
+  r <- apply_bcall c argvs [] ;;
+  let '(rtype, clean, vs) := r in
+  if is_set_like_op (cl_name (bc_f c)) && is_object rtype then
+    (* "instead of common parent type, we return a union type" *)
+    (* an operand that is not of an object type can only be an (anytype) empty set *)
+    let ov := fun a : argv => if is_object (av_ty a) then av_vs a else [] in
+    match (if N.eqb nm (sg_if sg) then
+             match argvs with
+             | [l; c; r] => Some (l, r, [ov l; av_vs c; ov r]) | _ => None end
+           else match argvs with [l; r] => Some (l, r, [ov l; ov r]) | _ => None end) with
+    | Some (l, r, vals) =>
+        Ok (union_type (av_ty l) (av_ty r), clean,
+            match sem_setlike nm vals with Some v => v | None => [] end)
+    | None => Err EInternal
+    end
+  else Ok (rtype, clean, vs).
+
 (* ---- func.compile_FunctionCall ---- *)
-Definition compile_call (nm : N) (argvs : list argv) (kwvs : list (N * argv))
-  : res (ty * bool * list value) :=
-  if existsb is_union (map av_ty argvs) || existsb (fun kv => is_union (av_ty (snd kv))) kwvs
+Definition resolve_call (nm : N) (args : list ty) (kwargs : list (N * ty)) : res bcall :=
+  if existsb is_union args || existsb (fun kv => is_union (snd kv)) kwargs
   then Err EUnsupported else
   match callables_named nm false with
   | [] => Err ENoName
   | funcs =>
-      m <- find_callable funcs (map av_ty argvs) (map (fun kv => (fst kv, av_ty (snd kv))) kwvs) ;;
+      m <- find_callable funcs args kwargs ;;
       match m with
       | [] => Err ENoFunc
-      | [c] => apply_bcall c argvs kwvs
+      | [c] => Ok c
       | _ => Err ENotUnique
       end
   end.
+
+Definition compile_call (nm : N) (argvs : list argv) (kwvs : list (N * argv))
+  : res (ty * bool * list value) :=
+  c <- resolve_call nm (map av_ty argvs) (map (fun kv => (fst kv, av_ty (snd kv))) kwvs) ;;
+  apply_bcall c argvs kwvs.
 
 (* expr._balance over compiled elements: UNION(balance(ls), balance(rs)), mid = len // 2.
    Elements are results: an error in an operand of an inner UNION surfaces before later
@@ -1401,6 +1423,17 @@ Fixpoint run (e : expr) : res (ty * bool * list value) :=
   | ELit s => if sc_is_abstract s then Err ENoName else Ok (TS s, true, [VS s 0])
   | EEmpty => Ok (TAny, true, [])
   | EObj o => Ok (TObj o, true, db o)
+  | EPtr e1 p =>
+      r <- run e1 ;;
+      let '(t, clean, vs) := r in
+      match t with
+      | TObj o => match find_ptr ptrs o p with
+                  | Some tgt => Ok (tgt, clean, flat_map (ptr_values p) vs)
+                  | None => Err EIndexErr        (* InvalidReferenceError: no link or property *)
+                  end
+      | TUnion _ => Err EUnsupported
+      | _ => Err EIndexErr
+      end
   | ECast t e1 =>
       r <- run e1 ;;
       let '(a, clean, vs) := r in
@@ -1486,19 +1519,20 @@ End Run.
 (* the type part does not depend on the value-level parameters (Proofs.run_type_indep);
    [type_of] instantiates them trivially.  This is the function that is extracted and
    compared with the real compiler. *)
-Definition type_of_clean (s_int64 : N) (e : expr) : res (ty * bool) :=
-  r <- run s_int64 (fun _ _ => []) (fun _ _ _ => []) (fun _ _ _ => []) (fun _ => []) e ;;
+Definition type_of_clean (s_int64 : N) (ptrs : list (N * N * ty)) (e : expr) : res (ty * bool) :=
+  r <- run s_int64 (fun _ _ => []) (fun _ _ _ => []) (fun _ _ _ => []) (fun _ => []) ptrs
+           (fun _ _ => []) e ;;
   Ok (fst r).
 
-Definition type_of (s_int64 : N) (e : expr) : res ty :=
-  r <- type_of_clean s_int64 e ;; Ok (fst r).
+Definition type_of (s_int64 : N) (ptrs : list (N * N * ty)) (e : expr) : res ty :=
+  r <- type_of_clean s_int64 ptrs e ;; Ok (fst r).
 
 (* the type reported for a statement `select e` *)
-Definition stmt_type_clean (s_int64 : N) (e : expr) : res (ty * bool) :=
-  r <- type_of_clean s_int64 e ;; if has_generic (fst r) then Err EGeneric else Ok r.
+Definition stmt_type_clean (s_int64 : N) (ptrs : list (N * N * ty)) (e : expr) : res (ty * bool) :=
+  r <- type_of_clean s_int64 ptrs e ;; if has_generic (fst r) then Err EGeneric else Ok r.
 
-Definition stmt_type (s_int64 : N) (e : expr) : res ty :=
-  r <- stmt_type_clean s_int64 e ;; Ok (fst r).
+Definition stmt_type (s_int64 : N) (ptrs : list (N * N * ty)) (e : expr) : res ty :=
+  r <- stmt_type_clean s_int64 ptrs e ;; Ok (fst r).
 
 End WithSig.
 
